@@ -145,7 +145,7 @@ func main() {
 		specs[er.Name] = mk
 		jobs = append(jobs, sched.Job{Name: er.Name, Run: func(dl time.Time) sched.Report {
 			sc := mk()
-			x := &sched.Explorer{Sc: sc, B: sched.Bounds{P: 1, F: 1, Horizon: 500, EarlyTimers: false, Deadline: dl}}
+			x := &sched.Explorer{Sc: sc, B: sched.Bounds{P: 1, F: 2, Horizon: 500, EarlyTimers: false, Deadline: dl}}
 			x.Outcome = func(e *sched.Exec) string { return sc.H.Txns[0].Outcome + fmt.Sprint(len(sc.W.Log())) }
 			return x.Explore(false)
 		}})
